@@ -6,7 +6,7 @@ rows = []
 benign = []
 for f in sorted(glob.glob(os.path.join(V, 'seeded', '*', 'meta.json'))):
     m = json.load(open(f)); name = f.split('/')[-2]
-    if name.startswith('benign-') or name.startswith('legit-'):
+    if name.startswith('benign-') or name.startswith('legit'):
         cl0 = lambda t: (t or '').replace('|', '/').replace('\n', ' ')
         benign.append(f"| {name} | {cl0(m.get('summary'))[:260]} | {', '.join(sorted(m.get('quick_checks_run_against_it', {})))} | {', '.join(m.get('false_alarms') or ['none'])} |")
         continue
@@ -17,7 +17,11 @@ txt = f"""# Independently seeded property-breaking changes
 {len(rows)} property-breaking changes written by fresh sub-agents (each given only one property's JSON record and a private scratch worktree of the
 repository; nothing from /verif). Round 1 (`<ID>-<n>`): three per property, free choice. Round 2 (`<ID>-r2-<n>`): three per
 property, each from a different category — (a) two cooperating edits, (b) state carried across calls, (c) configuration-specific,
-(d) boundary size / degenerate input, (e) numeric extreme, (f) wrong / stale variable after a refactoring.
+(d) boundary size / degenerate input, (e) numeric extreme, (f) wrong / stale variable after a refactoring. Round 3 (`<ID>-r3-<n>`)
+and round 4 (`<ID>-r4-<n>`): the authors were told which workloads and oracles already exist and asked for changes that need a
+rarer coincidence. Round 5 (`<ID>-r5-<group><n>`): eight authors, one per file group, given all twenty statements, chose the
+property themselves. `caught by` lists every check that was run against the change and exits 1; an empty cell (—) means not caught
+(DESIGN.md §9 says why the three such round-4 changes are left so).
 
 Every change was confirmed by `tools/seedcheck.sh` in my own scratch worktree before it was filed: the repository's 182 tests pass
 with the patch, `demo.py` exits 0 on the clean tree and non-zero with the patch. `meta.json` records that run and which quick
@@ -32,7 +36,9 @@ None of these patches is ever applied to /repo itself.
 
 `benign-<group>-<n>`: behaviour-preserving refactorings (bit-identical observable behaviour), three per file group, written by
 independent sub-agents and verified by them with differential tests. `legit-<group>-<n>`: changes that DO alter observable
-behaviour but only in ways no property forbids (other tie-breaking, another valid spanning tree, another admissible label, ...).
+behaviour but only in ways no property forbids (other tie-breaking, another valid spanning tree, another admissible label, ...);
+`legit2-<group>-<n>`: a second such round written after the round-4/5 strengthenings (other evaluation orders, other RNG APIs,
+header-tolerant loaders, re-associated arithmetic, Python-number graph state, ...).
 Each was applied to a scratch worktree and the listed quick checks were run against it (`tools/allchecks_on_patch.sh`).
 
 | control | what was changed | checks run against it | false alarms |
